@@ -19,11 +19,11 @@ def main():
         if not os.path.exists(path):
             na.append({"property_id": pid, "reason": NOT_BUILT})
             continue
-        m = importlib.import_module("mc.checks." + pid)
         claimed = open(os.path.join(V, "claimed.txt")).read().split()
         if pid not in claimed:
             na.append({"property_id": pid, "reason": NOT_BUILT})
             continue
+        m = importlib.import_module("mc.checks." + pid)
         if not getattr(m, "READY", False):
             na.append({"property_id": pid, "reason": NOT_BUILT})
             continue
